@@ -96,7 +96,9 @@ func (s *occServer) Transition(ctx context.Context, req *pb.TransitionRequest) (
 	rep := &pb.TransitionReply{Trigger: pb.StateChangeTrigger_EXECUTOR, TransitionEvent: req.GetTransitionEvent(), State: cur}
 	e, ok := occTable[req.GetTransitionEvent()]
 	if s.beh.Sticky || (s.beh.StickyExit && req.GetTransitionEvent() == "EXIT") {
-		rep.Ok = true // acknowledged, but the device stays where it is
+		// acknowledged, but the device stays where it is (when that happens to be the requested
+		// destination the request is refused instead, so that "unmoved" never looks like "performed")
+		rep.Ok = !(ok && e[1] == cur)
 		return rep, nil
 	}
 	if s.beh.TransFail || !ok || (e[0] != cur && !(req.GetTransitionEvent() == "EXIT" && cur == "ERROR")) {
